@@ -27,4 +27,4 @@ def prop(props_module, tags):
         trusted_base=["Go harness harness/crdt + harness/node + overlay hook internal/db/verif_hooks.go (synchronous executeMerge), Driver/Crdt.lean"],
     )
 
-ENGINE = {"name": "crdt", "path": "harness/crdt", "serves_properties": ["C01", "C02", "C03", "C04"], "kind_free_text": "2-4 in-process nodes, local writes + deliveries through the synchronous merge hook; per-step diff of raw doc state and head sets against drv crdt; impl-only oracles (replica equality, counter sums, heads maximal, DAG well-formedness)"}
+ENGINE = {"name": "crdt", "path": "harness/crdt", "serves_properties": ["C01", "C02", "C03", "C04", "C07"], "kind_free_text": "2-4 in-process nodes, local writes + deliveries through the synchronous merge hook; per-step diff of raw doc state and head sets against drv crdt; impl-only oracles (replica equality, counter sums, heads maximal, DAG well-formedness)"}
